@@ -79,6 +79,18 @@ func buildDefaultMaps(s *seedSet) *psMaps {
 			NalHrdParameters: &avc.HrdParameters{CpbRemovalDelayLengthMinus1: 31, DpbOutputDelayLengthMinus1: 31, TimeOffsetLength: 31}}},
 		&avc.SPS{VUI: &avc.VUIParameters{VclHrdParametersPresentFlag: true,
 			VclHrdParameters: &avc.HrdParameters{CpbRemovalDelayLengthMinus1: 0, DpbOutputDelayLengthMinus1: 0, TimeOffsetLength: 0}}})
+	// nal / vcl / both HRD x four sets of the 5-bit lengths
+	for k, ln := range [][3]uint{{0, 0, 0}, {7, 7, 5}, {23, 15, 24}, {31, 31, 31}, {0, 31, 31}, {15, 0, 1}} {
+		h := &avc.HrdParameters{CpbRemovalDelayLengthMinus1: ln[0], DpbOutputDelayLengthMinus1: ln[1], TimeOffsetLength: ln[2]}
+		v := &avc.VUIParameters{PicStructPresentFlag: k%2 == 0}
+		if k%3 != 1 {
+			v.NalHrdParametersPresentFlag, v.NalHrdParameters = true, h
+		}
+		if k%3 != 0 {
+			v.VclHrdParametersPresentFlag, v.VclHrdParameters = true, h
+		}
+		m.avcSEISPS = append(m.avcSEISPS, &avc.SPS{VUI: v})
+	}
 	for id := uint32(0); id < 32; id++ {
 		if sps, ok := s.avcSPS[id]; ok {
 			m.avcSPS[id] = sps
@@ -125,18 +137,9 @@ func buildDefaultMaps(s *seedSet) *psMaps {
 			m.hevcPPS[id] = hp[int(id)%len(hp)]
 		}
 	}
-	for i := 0; i < 16; i++ {
-		h := &hevc.HrdParameters{
-			NalHrdParametersPresentFlag:            i&1 != 0,
-			VclHrdParametersPresentFlag:            i&2 != 0,
-			SubPicHrdParamsPresentFlag:             i&4 != 0,
-			SubPicCpbParamsInPicTimingSeiFlag:      i&8 != 0,
-			AuCpbRemovalDelayLengthMinus1:          uint8([]int{7, 31, 0, 23}[i%4]),
-			DpbOutputDelayLengthMinus1:             uint8([]int{7, 0, 31, 15}[i%4]),
-			DpbOutputDelayDuLengthMinus1:           uint8([]int{7, 31, 0, 4}[i%4]),
-			DuCpbRemovalDelayIncrementLengthMinus1: uint8([]int{7, 0, 31, 9}[i%4]),
-		}
-		m.hevcSEISPS = append(m.hevcSEISPS, &hevc.SPS{VUI: &hevc.VUIParameters{FrameFieldInfoPresentFlag: i%3 != 0, HrdParameters: h}})
+	// every combination of the flags DecodePicTimingHevcSEI reads x four sets of the 5-bit lengths
+	for k, p := range hevcPTParamSets() {
+		m.hevcSEISPS = append(m.hevcSEISPS, hevcSPSFor(p, k))
 	}
 	m.hevcSEISPS = append(m.hevcSEISPS, &hevc.SPS{VUI: &hevc.VUIParameters{FrameFieldInfoPresentFlag: true}})
 	return m
@@ -157,11 +160,20 @@ type runCtx struct {
 	mode       string
 	types      []uint
 	selv       int
+	toolIn     []byte // what the tools get instead of the first item (chain-ue: the whole stream)
 }
 
 type chainDetail struct {
 	Codec string   `json:"codec"`
 	PS    []string `json:"parameter_sets_hex"`
+	// Base: the unmodified parameter sets of the stream, parsed first (the
+	// dependent parsers fall back to them for what the hostile sets do not replace).
+	Base []string `json:"base_parameter_sets_hex,omitempty"`
+	// Sys (chain-ue): PS[0] is the hostile set; the dependent units only run when the library accepted it.
+	Sys   bool   `json:"systematic,omitempty"`
+	Kind  string `json:"hostile_kind,omitempty"`  // avc-sps avc-pps hevc-sps hevc-pps
+	Field string `json:"hostile_field,omitempty"` // syntax element that starts at the forced position (ref streams)
+	Flip  bool   `json:"bit_flip,omitempty"`      // the mutation is a single-bit flip, not a forced ue(v)
 }
 
 type witness struct {
@@ -457,7 +469,7 @@ func (x *runCtx) runOps() {
 		x.call("avc.ParseSEINalu(nil)", len(v), func() { msgs = usable(avc.ParseSEINalu(v, nil)) })
 		x.useMsgs("avc.ParseSEINalu", len(v), msgs)
 		for i, sps := range m.avcSEISPS {
-			if i != 0 && !x.isSEISeed() && (i+x.sel())%3 != 0 {
+			if i != 0 && !x.isSEISeed() && (i+x.sel())%5 != 0 {
 				continue // rotate through the external-parameter sets (all of them for SEI inputs)
 			}
 			sps := sps
@@ -534,13 +546,16 @@ func (x *runCtx) runOps() {
 			}
 		})
 	}
-	for _, v := range [][]byte{in, retag(in, 0x4e, 0x01), retag(in, 0x50, 0x01)} {
+	for vi, v := range [][]byte{in, retag(in, 0x4e, 0x01), retag(in, 0x50, 0x01)} {
 		v := v
+		if vi > 0 && bytes.Equal(v, in) {
+			continue
+		}
 		var msgs []sei.SEIMessage
 		x.call("hevc.ParseSEINalu(nil)", len(v), func() { msgs = usable(hevc.ParseSEINalu(v, nil)) })
 		x.useMsgs("hevc.ParseSEINalu", len(v), msgs)
 		for i, sps := range m.hevcSEISPS {
-			if i != 0 && !x.isSEISeed() && (i+x.sel())%5 != 0 {
+			if i != 0 && !x.isSEISeed() && (i+x.sel())%16 != 0 {
 				continue
 			}
 			sps := sps
@@ -669,24 +684,13 @@ func (x *runCtx) seiDirect(pl []byte, types []uint) {
 		}
 	}
 	one("sei.DecodePicTimingAvcSEIHRD", func() (sei.SEIMessage, error) { return sei.DecodePicTimingAvcSEIHRD(sd, nil, 31) })
-	for flags := 0; flags < 16; flags++ {
-		for _, ln := range []uint8{0, 7, 31} {
-			k++
-			if !full && (k+x.sel())%6 != 0 {
-				continue
-			}
-			ex := sei.HEVCPicTimingParams{
-				FrameFieldInfoPresentFlag:              flags&1 != 0,
-				CpbDpbDelaysPresentFlag:                flags&2 != 0,
-				SubPicHrdParamsPresentFlag:             flags&4 != 0,
-				SubPicCpbParamsInPicTimingSeiFlag:      flags&8 != 0,
-				AuCbpRemovalDelayLengthMinus1:          ln,
-				DpbOutputDelayLengthMinus1:             31 - ln,
-				DpbOutputDelayDuLengthMinus1:           ln,
-				DuCpbRemovalDelayIncrementLengthMinus1: ln,
-			}
-			one("sei.DecodePicTimingHevcSEI", func() (sei.SEIMessage, error) { return sei.DecodePicTimingHevcSEI(sd, ex) })
+	for _, ex := range hevcPTParamSets() {
+		ex := ex
+		k++
+		if !full && (k+x.sel())%8 != 0 {
+			continue
 		}
+		one("sei.DecodePicTimingHevcSEI", func() (sei.SEIMessage, error) { return sei.DecodePicTimingHevcSEI(sd, ex) })
 	}
 	sd4 := sei.NewSEIData(4, pl)
 	one("sei.DecodeUserDataRegisteredSEI", func() (sei.SEIMessage, error) { return sei.DecodeUserDataRegisteredSEI(sd4) })
@@ -730,4 +734,31 @@ func (x *runCtx) seiDirect(pl []byte, types []uint) {
 		_ = sd.Payload()
 		_ = sei.SEIType(sd.Type()).String()
 	})
+}
+
+// runSEINal sends an SEI NAL unit through the two ParseSEINalu functions with
+// nil and with every external SPS value.
+func (x *runCtx) runSEINal() {
+	in, m := x.in, x.maps
+	n := len(in)
+	var msgs []sei.SEIMessage
+	if n > 0 && in[0]&0x1f == 6 && in[0]&0x80 == 0 {
+		x.call("avc.ParseSEINalu(nil)", n, func() { msgs = usable(avc.ParseSEINalu(in, nil)) })
+		x.useMsgs("avc.ParseSEINalu", n, msgs)
+		for _, sps := range m.avcSEISPS {
+			sps := sps
+			msgs = nil
+			x.call("avc.ParseSEINalu(sps)", n, func() { msgs = usable(avc.ParseSEINalu(in, sps)) })
+			x.useMsgs("avc.ParseSEINalu", n, msgs)
+		}
+		return
+	}
+	x.call("hevc.ParseSEINalu(nil)", n, func() { msgs = usable(hevc.ParseSEINalu(in, nil)) })
+	x.useMsgs("hevc.ParseSEINalu", n, msgs)
+	for _, sps := range m.hevcSEISPS {
+		sps := sps
+		msgs = nil
+		x.call("hevc.ParseSEINalu(sps)", n, func() { msgs = usable(hevc.ParseSEINalu(in, sps)) })
+		x.useMsgs("hevc.ParseSEINalu", n, msgs)
+	}
 }
